@@ -194,6 +194,8 @@ def static_case(rng):
                               'sub/', 'nope.html', 'a', 'b\\c.txt', 'sp ace.txt']),
          'match': rng.choice(['', '', '', r'\.txt$', r'^/static', r'(?i)\.TXT$', r'\.\.', r'^[^%]*$']),
          'method': method, 'path_info': prefix + rel, 'tmpl': t}
+    if rng.random() < 0.02:
+        c['index'] = rng.choice([['index.html'], ['index.html', 'index.htm'], ['../canary.txt']])   # not a string: TypeError
     if rng.random() < 0.15:
         c['debug'] = True
     if rng.random() < 0.15:
@@ -221,6 +223,13 @@ def session_id(rng, store):
         v = sep.join(parts)
         if sep != '/' and rng.random() < 0.5:
             v = v.replace(sep, '/', 1)
+        if rng.random() < 0.15:
+            # same id, padded with "./" pieces to the length of a generated id (32 / 40 / 64 / 128 characters)
+            n = rng.choice([32, 40, 40, 64, 128])
+            i = v.find('/')
+            if i >= 0 and len(v) < n:
+                pad = n - len(v)
+                v = v[:i + 1] + './' * (pad // 2) + ('/' if pad % 2 else '') + v[i + 1:]
     elif t == 'outback':
         out = rng.choice([store + '-evil', store + 'x', 'other', 'nonexistent', 'canary.txt', 'root/sub'])
         ups = '/'.join(['..'] * len(out.split('/')))
